@@ -349,7 +349,11 @@ def check_linedirs(outpath, outname, specname, noline):
             probs.append("line %d: '#line' emitted although noline was requested: %r" % (i, l[:80]))
             continue
         n = int(m.group(1))
-        fn = m.group(2).decode("latin1")
+        body = m.group(2)
+        if not re.fullmatch(rb'(?:[^"\\]|\\.)*', body):
+            probs.append("line %d: the file name in %r is not a well-formed C string" % (i, l[:120]))
+            continue
+        fn = re.sub(rb'\\(.)', rb'\1', body).decode("latin1")
         if os.path.basename(fn) == os.path.basename(outname):
             n_out += 1
             if n != i + 1:
@@ -372,9 +376,11 @@ def worker(args):
     os.makedirs(d, exist_ok=True)
     # file names are text too: names that are m4 macros, flex macros, or contain odd bytes
     base = ["t", "t", "M4_YY_NOOP", "m4_dnl", "yyless m4_define", "t-$1`x'", "M4_MODE_PREFIX"][i % 7]
+    if i % 9 == 4:
+        base = 'my "quoted" le\\xer'      # (a directive is a C string: quote and backslash are escaped)
     spec = os.path.join(d, base + ".l")
     util.write(spec, text.encode("latin1"))
-    out = os.path.join(d, ["t.c", "m4_divert.c", "M4_YY_NOOP.c"][i % 3])
+    out = os.path.join(d, ["t.c", "m4_divert.c", "M4_YY_NOOP.c"][i % 3] if i % 11 != 7 else 'o"u\\t.c')
     res = {"i": i, "problems": [], "feats": {}, "tracers": len(S.tracers), "spec": spec}
 
     def feat(k, n=1):
